@@ -42,7 +42,7 @@ class Step:
         self.viol = []
         self.hist = self.idx = None
 
-TEXT_ALPHA = 'aaabbbcc  \t\n-:;0123xyzAB' + 'éß'
+TEXT_ALPHA = 'aaabbbcc  \t\n-:;0123xyzABsk' + 'éß' + '\u0130\u017f\u03a3\u212a'   # İ ſ Σ K(elvin): case folding that changes length / differs from lower()
 
 MEMBERS = ['BOLD', 'FAINT', 'NO_BOLD_FAINT', 'RED', 'BLUE', 'FG_DEFAULT', 'UNDERLINE', 'DOUBLE_UNDERLINE',
            'NO_UNDERLINE', 'BG_GREEN', 'BG_DEFAULT', 'ITALIC', 'DEFAULT_FONT', 'ALT_FONT_2', 'UL_RED', 'ORANGE',
@@ -56,13 +56,17 @@ def good_sargs(rng):
                                           'underline', 'double underline', 'fg_default', 'italic', 'UL_Blue']))
     if k == 2: return ('int', rng.choice([1, 2, 22, 31, 34, 39, 4, 21, 24, 42, 3, 10, 12, 53, 77, 256]))
     if k == 3: return ('str', rng.choice(['31', '1;31', '38;5;214', '4;58;2;1;2;3', '38;2;1;2;3;1', '22', '01;034']))
-    if k == 4: return ('str', rng.choice(['[38;5;214', '[1', '[31', '[1;31', '[38;5;300', '[ 1', '[22', '[10']))
+    if k == 4: return ('str', rng.choice(['[38;5;214', '[1', '[31', '[1;31', '[38;5;300', '[ 1', '[22', '[10', '[1 ', '[ 38;5;200',
+                                          '[48 ;2;1;2;3', '[ 31 ; 1', '[\t4', '[01', '[4 ;58;5; 9']))
     if k == 5: return ('str', rng.choice(['rgb(1,2,3)', 'bg_rgb(0x102030)', 'ul_color256(9)', 'dul_rgb(300, 0, 5)',
                                           'fg_colour256(0x10)', 'rgb([1, 2, 3])', 'color256(214)']))
     if k == 6: return ('obj', rng.choice(['1', '31', '34', '1;31', '38;5;214', '38;5;300', '22', '4', '+1', '2;', '10']))
     if k == 13: return rng.choice([('list', [('int', 38), ('str', 'bold')]), ('str', '38;bold'), ('list', [('int', 38), ('int', 5), ('member', 'RED')]),
                                    ('list', [('int', 58), ('int', 5), ('str', 'italic'), ('int', 4)]), ('str', '38;5;300;red'),
-                                   ('obj', ['1', '3H']), ('obj', [4, '2J']), ('obj', (1, 31)), ('obj', ['38', '5', '1']), ('obj', 31)])
+                                   ('obj', ['1', '3H']), ('obj', [4, '2J']), ('obj', (1, 31)), ('obj', ['38', '5', '1']), ('obj', 31),
+                                   ('list', [('int', 38), ('str', '5;208')]), ('list', [('str', '38;5'), ('int', 208)]),
+                                   ('list', [('str', '48;2;1'), ('str', '2;3')]), ('list', [('str', 'bold;58'), ('int', 5), ('int', 9)]),
+                                   ('tuple', [('int', 4), ('str', '58;2;1;2'), ('int', 3)]), ('list', [('str', '38'), ('str', '5'), ('str', '1')])])
     if k == 12: return rng.choice([('obj', '3H'), ('str', '[1m'), ('obj', 'x'), ('str', '[2J'), ('obj', '5~'), ('str', '[38;5;'),
                                    ('list', [('obj', '1A'), ('obj', '2B')]), ('list', [('str', '[x'), ('str', '[y'), ('member', 'BOLD')])])
     if k == 7: return ('list', [good_sargs(rng) for _ in range(rng.randrange(0, 3))])
@@ -133,7 +137,7 @@ class Runner:
             s = (s[:i] + self.rng.choice(['\r\n', '\r', '\r\n\n', '\x0b', '\x1c']) + s[i:])[:max(n, 3)]
         if esc and self.rng.random() < 0.5:
             i = self.rng.randint(0, len(s))
-            s = s[:i] + self.rng.choice(['\x1b[2J', '\x1b[', '\x1b', '\x1b[1m', '\x1b[38;5;1m', '\x1b[0m', '\x1b[m']) + s[i:]
+            s = s[:i] + self.rng.choice(['\x1b[2J', '\x1b[', '\x1b', '\x1b[1m', '\x1b[38;5;1m', '\x1b[0m', '\x1b[m', '\x9b', '\x9b1m', '\x9d', '\x07']) + s[i:]
         return s
 
     def sgr_text(self):
@@ -1374,13 +1378,16 @@ class Runner:
         else:
             pat = rng.choice([self.pattern(x), self.pattern(x), t, t[:3], t[-3:], '.', 'a.', '(', 'a+', '[', '\\', 'A', 'B', '*', '++', '(a)', '[1+1]'])
         mc = rng.random() < 0.4
+        if not regex and rng.random() < 0.3:
+            pat = rng.choice([pat.upper(), pat.lower(), pat.swapcase(), 's', 'S', 'k', 'i', '\u03c3', '\u03c2'])
         count = rng.choice([-1, -1, 0, 1, 2])
         un = rng.random() < 0.4
         present = sorted(set(q for ac in O.acts(x) for q in O.texts(ac)))
         if un:
             r = rng.random()
-            if r < 0.3: fmt = []
-            elif r < 0.4: fmt = [None]
+            if r < 0.25: fmt = []
+            elif r < 0.33: fmt = [None]
+            elif r < 0.45: fmt = rng.choice([[None, good_sargs(rng)], [good_sargs(rng), None], [None, ('obj', rng.choice(present or ['1']))]])
             elif r < 0.8 and present: fmt = [('obj', rng.choice(present))]
             else: fmt = [good_sargs(rng)]
         else:
@@ -1466,6 +1473,22 @@ class Runner:
                 return [('C13', 'ansistr_op_eq', '%s: %r vs %r' % (what, r_s, r_a))]
             return []
         viol += same(a, x, 'ctor')
+        # ---- constructor forms: AnsiStr(src, *settings) against AnsiString(src, *settings), src a str,
+        #      an AnsiString or an AnsiStr (also one whose wrapped value does not survive re-parsing)
+        for _ in range(2):
+            kind = rng.choice(['str', 'A', 'S', 'S'])
+            src = {'str': rng.choice([str(x), self.sgr_text(), self.text(esc=True)]), 'A': x, 'S': a}[kind]
+            k = rng.choice([0, 1, 1, 2])
+            sg = [(bad_sargs(rng) if rng.random() < 0.05 else good_sargs(rng)) for _ in range(k)]
+            r_a = self.call(lambda: self.A(src, *[P.build_sarg(q, self.mod) for q in sg]))
+            r_s = self.call(lambda: self.S(src, *[P.build_sarg(q, self.mod) for q in sg]))
+            what = 'ctor(%s %r, %r)' % (kind, str(src)[:40], sg)
+            if r_a[0] != r_s[0] or (r_a[0] == 'err' and type(r_a[1]) is not type(r_s[1])):
+                viol.append(('C13', 'ansistr_op_eq', '%s: outcome %r vs %r' % (what, r_s, r_a)))
+            elif r_a[0] == 'ok':
+                viol += same(r_s[1], r_a[1], what)
+                if kind != 'str' and same(a, x, 'source after ctor'):
+                    viol.append(('C13', 'ansistr_immutable', what))
         n = len(x._s)
         g = good_sargs(rng)
         arg = P.build_sarg(g, self.mod)
@@ -1474,32 +1497,78 @@ class Runner:
         pat = self.pattern(x)
         other = self.operand()
         w = rng.choice([n, n + 3, 0])
+        present = sorted(set(q for ac in O.acts(x) for q in O.texts(ac)))
+        unf = rng.choice([(), (None,), (None, 'red'), ('bold', None), (arg,)] + ([(self.mod.AnsiSetting(rng.choice(present)),), (None, self.mod.AnsiSetting(rng.choice(present)))] if present else []))
+        mo = None
+        try:
+            mo = _re.search(_re.escape(pat) if pat else 'a?', x._s)
+        except _re.error:
+            pass
+        spec = rng.choice([None, '', '>8:red', '*^9', '>7', '*^8:bold', '<6', '.-<9:blue', ':bold;red', '12'])
         calls = [
             ('apply_formatting', (arg, st, en, rng.random() < 0.5), {}),
-            ('remove_formatting', (None, st, en), {}),
+            ('remove_formatting', (rng.choice([None, None, arg]), st, en), {}),
             ('clear_formatting', (), {}),
             ('__getitem__', (slice(self.bound(x), self.bound(x)),), {}),
+            ('__getitem__', (rng.randint(-n - 1, n),), {}),
             ('clip', (self.bound(x), self.bound(x)), {}),
-            ('__add__', (other[1],), {}),
+            ('__add__', (other[1],), {}), ('__iadd__', (other[1],), {}),
             ('ljust', (w, '*'), {}), ('rjust', (w, '*'), {}), ('center', (w, '*'), {}), ('zfill', (w,), {}),
-            ('strip', (), {}), ('lstrip', ('a ',), {}), ('rstrip', (), {}),
+            ('ljust', (w,), {}), ('center', (n + 4,), {}),
+            ('strip', (), {}), ('lstrip', ('a ',), {}), ('rstrip', (), {}), ('strip', (x._s[:1] + x._s[-1:],), {}),
             ('removeprefix', (x._s[:1],), {}), ('removesuffix', (x._s[-1:],), {}),
-            ('replace', (pat, 'Q', rng.choice([-1, 1])), {}),
+            ('replace', (pat, 'Q', rng.choice([-1, 1])), {}), ('replace', (pat, other[1]), {}),
             ('split', (rng.choice([None, pat or None]),), {}), ('rsplit', (None, 1), {}), ('splitlines', (), {}),
+            ('split', (pat or None, 1), {}), ('splitlines', (True,), {}),
             ('partition', (pat or 'a',), {}), ('rpartition', (pat or 'a',), {}),
             ('upper', (), {}), ('lower', (), {}), ('title', (), {}), ('capitalize', (), {}), ('swapcase', (), {}), ('casefold', (), {}),
-            ('expandtabs', (4,), {}), ('simplify', (), {}),
-            ('format_matching', (pat, 'bold'), {}), ('unformat_matching', (pat,), {}),
-            ('to_str', (rng.choice([None, '>8:red', '*^9'])), {}) if False else ('to_str', (rng.choice([None, '>8:red', '*^9']),), {}),
+            ('expandtabs', (4,), {}), ('expandtabs', (), {}), ('simplify', (), {}),
+            ('format_matching', (pat, 'bold'), {}), ('unformat_matching', (pat,) + unf, {}),
+            ('format_matching', (pat, arg), dict(match_case=rng.random() < 0.5, count=rng.choice([-1, 0, 1, 2]))),
+            ('unformat_matching', (pat,) + unf, dict(match_case=rng.random() < 0.5, count=rng.choice([-1, 1]))),
+            ('format_matching', (rng.choice(['a+', '[ab]', '.', r'\s', 'a|b']), 'red', 'bold'), dict(regex=True)),
+            ('to_str', (spec,), {}), ('__format__', ('' if spec is None else spec,), {}),
             ('to_str', (None, rng.random() < 0.5, True, rng.random() < 0.5), {}), ('to_str', (None, False, False, False), {}),
             ('to_str', (rng.choice(['', '>7', '*^8:bold']), True, True, True), {}),
-            ('settings_at', (rng.randint(-1, n),), {}), ('find_settings', (arg,), {}),
-            ('is_formatting_valid', (), {}), ('is_formatting_parsable', (), {}),
+            ('to_str', (), dict(reset_end=False)), ('to_str', (), dict(optimize=False)), ('to_str', (), dict(reset_start=True)),
+            ('settings_at', (rng.randint(-1, n),), {}), ('ansi_settings_at', (rng.randint(-1, n),), {}),
+            ('find_settings', (arg,), {}), ('find_settings', (arg, st, en, rng.random() < 0.5), {}),
+            ('is_formatting_valid', (), {}), ('is_formatting_parsable', (), {}), ('is_optimizable', (), {}),
             ('count', (pat,), {}), ('find', (pat,), {}), ('endswith', (pat,), {}), ('__len__', (), {}), ('__contains__', (pat,), {}),
+            ('rfind', (pat, st), {}), ('index', (x._s[:1],), {}), ('rindex', (x._s[-1:], 0, None), {}), ('count', (pat, st, en), {}),
+            ('isalnum', (), {}), ('isalpha', (), {}), ('isascii', (), {}), ('isdecimal', (), {}), ('isdigit', (), {}),
+            ('isidentifier', (), {}), ('islower', (), {}), ('isnumeric', (), {}), ('isprintable', (), {}), ('isspace', (), {}),
+            ('istitle', (), {}), ('isupper', (), {}), ('encode', (), {}), ('__contains__', (other[1],), {}),
         ]
-        for name, args, kw in rng.sample(calls, 8):
+        if mo is not None:
+            calls.append(('apply_formatting_for_match', (arg, mo), {}))
+            calls.append(('apply_formatting_for_match', (arg, mo, 0), {}))
+        # ---- things that are not plain method calls
+        r1 = self.call(lambda: [str(c) for c in a]); r2 = self.call(lambda: [str(c) for c in x])
+        if r1 != r2 and not (r1[0] == 'err' and r2[0] == 'err'):
+            viol.append(('C13', 'ansistr_op_eq', '__iter__: %r vs %r' % (r1, r2)))
+        xc0 = x.copy()
+        if (a == self.S(xc0)) is not True or (a != self.S(xc0)) is not False:
+            viol.append(('C13', 'ansistr_op_eq', '__eq__: AnsiStr(x) != AnsiStr(x.copy())'))
+        if a.base_str != x.base_str:
+            viol.append(('C13', 'ansistr_op_eq', 'base_str'))
+        jargs = [rng.choice([a, x, other[1], 'q', self.S(other[1]) if not isinstance(other[1], str) else other[1]]) for _ in range(rng.randint(1, 3))]
+        jx = [q._s.copy() if isinstance(q, self.S) else q for q in jargs]
+        r_s = self.call(lambda: self.S.join(*jargs)); r_a = self.call(lambda: self.A.join(*jx)); r_m = self.call(lambda: self.A.join(*jargs))
+        for rr, nm_ in ((r_s, 'AnsiStr.join'), (r_m, 'AnsiString.join')):
+            if rr[0] != r_a[0]:
+                viol.append(('C13', 'ansistr_op_eq', '%s%r: outcome %r vs %r' % (nm_, jargs, rr, r_a)))
+            elif rr[0] == 'ok':
+                if nm_ == 'AnsiStr.join':
+                    viol += same(rr[1], r_a[1], nm_)
+                elif rr[1].base_str != r_a[1].base_str or str(rr[1]) != str(r_a[1]):
+                    viol.append(('C13', 'ansistr_op_eq', nm_ + ' with AnsiStr arguments differs from the same call with their AnsiString values'))
+        if same(a, x, 'receiver after join'):
+            viol.append(('C13', 'ansistr_immutable', 'join'))
+        for name, args, kw in rng.sample(calls, 12):
+            self.stats['ops']['twin.' + name] = self.stats['ops'].get('twin.' + name, 0) + 1
             xc = x.copy()
-            inplace_names = {'apply_formatting', 'remove_formatting', 'clear_formatting', 'simplify', 'format_matching', 'unformat_matching'}
+            inplace_names = {'apply_formatting', 'remove_formatting', 'clear_formatting', 'simplify', 'format_matching', 'unformat_matching', 'apply_formatting_for_match'}
             def on_string():
                 r = getattr(xc, name)(*args, **kw)
                 return xc if name in inplace_names else r
